@@ -29,6 +29,7 @@ func VerifC15_Ticks() {
 		verifrt.Assume(iv >= 2)
 		verifrt.Assume(iv < 1<<40)
 		cfg := &config.CRLConfig{WorkDir: "/work-" + label, CDPConfig: &config.CDPConfig{}, UpdateIntervalParsed: time.Duration(iv)}
+		rawLikeParsed(cfg)
 		c := &CRLRevocationChecker{}
 		verifrt.Assume(c.Provision(cfg, zap.NewNop()) == nil) // the real Provision (own work_dir per validator)
 		verifrt.DropSpawned()
